@@ -105,10 +105,9 @@ Lemma j_start_again progs s i t0 r :
     {| j_q := j_q s; j_ths := map (look (j_q s)) (upd (j_ths s) i (with_cur t0 (Some (rec_again r)))); j_ok := j_ok s |}.
 Proof. intros Ht Hr Hc. unfold j_start. rewrite Ht, Hr, Hc, updl_upd. reflexivity. Qed.
 
-Definition is_waitcode (o : Z) : bool := (o =? -10) || (o <=? -100).
 Definition rec_fresh (o : Z) (others : bool) : oprec :=
-  {| o_kind := if (o =? 0) || is_waitcode o then 2 else if o <? 0 then 3 else 1; o_val := o; o_lp := false; o_got := 0;
-     o_excuse := others; o_lenmin := 0; o_wait := is_waitcode o; o_left := if o <=? -100 then - o - 100 else -1 |}.
+  {| o_kind := if (o =? 0) || is_wait o then 2 else if o <? 0 then 3 else 1; o_val := o; o_lp := false; o_got := 0;
+     o_excuse := others; o_lenmin := 0; o_wait := is_wait o; o_left := if o <=? -100 then - o - 100 else -1 |}.
 Definition t_fresh (t0 : tstate) (r : oprec) : tstate :=
   {| t_next := S (t_next t0); t_cur := Some r; t_done := t_done (finish t0); t_lasthead := -1 |}.
 Lemma finish_next t : t_next (finish t) = t_next t.
@@ -430,4 +429,177 @@ Proof.
       replace (Z.of_nat (tail (sh c) - head (sh c)) <=? len (sh c)) with true by (symmetry; apply Z.leb_le; lia).
       cbn. rewrite ?Z.eqb_refl. auto.
     + apply (Econt_with_cur t r); auto.
+Qed.
+
+(* ---- an idle thread: Gosched between two attempts of PopWait(-1), next attempt, next operation, or nothing ---- *)
+Lemma rt_begin_spec rt o more : r_prog rt = o :: more -> op_ok o = true ->
+  exists opx rt1, rt_begin rt = Some (opx, rt1) /\ r_prog rt1 = more /\ r_yield rt1 = false /\ r_res rt1 = r_res rt /\
+    forall hd others, opsim hd (start_pc opx) rt1 (rec_fresh o others).
+Proof.
+  intros Hrp Hok. unfold rt_begin. rewrite Hrp. unfold op_ok in Hok. destruct (is_wait o) eqn:Ew.
+  - exists OpPop, {| r_prog := more; r_wait := o; r_left := tries_of o; r_yield := false; r_res := r_res rt |}.
+    split; [reflexivity|]. cbn [r_prog r_yield r_res]. split; [reflexivity|]. split; [reflexivity|]. split; [reflexivity|].
+    intros hd others. cbn [start_pc opsim]. unfold wait_run. cbn [rec_fresh o_kind o_lp o_wait o_left r_wait r_left].
+    rewrite Ew, orb_true_r. split; [reflexivity|]. split; [reflexivity|].
+    assert (Hn0 : o <> 0) by (unfold is_wait in Ew; intros ->; discriminate).
+    split; [destruct (Z.eqb_spec o 0); [contradiction|reflexivity]|].
+    intros _. split; [reflexivity|]. unfold tries_of. destruct (Z.leb_spec o (-100)); lia.
+  - pose proof Ew as Ew'. unfold is_wait in Ew. apply orb_false_iff in Ew as [E1 E2]. rewrite E1, E2 in Hok. rewrite !orb_false_r in Hok.
+    apply Z.leb_le in Hok. unfold dec_op.
+    destruct (Z.eqb_spec o 0) as [->|N0]; [|destruct (Z.eqb_spec o (-1)) as [->|N1]].
+    + exists OpPop, {| r_prog := more; r_wait := 0; r_left := 0; r_yield := false; r_res := r_res rt |}.
+      split; [reflexivity|]. cbn [r_prog r_yield r_res]. split; [reflexivity|]. split; [reflexivity|]. split; [reflexivity|].
+      intros hd others. cbn [start_pc opsim]. unfold wait_run. cbn [rec_fresh o_kind o_lp o_wait o_left r_wait r_left Z.eqb orb negb].
+      repeat split; auto. intros; lia.
+    + exists OpLen, {| r_prog := more; r_wait := 0; r_left := 0; r_yield := false; r_res := r_res rt |}.
+      split; [reflexivity|]. cbn [r_prog r_yield r_res]. split; [reflexivity|]. split; [reflexivity|]. split; [reflexivity|].
+      intros hd others. cbn [start_pc opsim rec_fresh o_kind r_wait]. split; reflexivity.
+    + replace (o <? 0) with false by (symmetry; apply Z.ltb_ge; lia).
+      exists (OpPush o), {| r_prog := more; r_wait := 0; r_left := 0; r_yield := false; r_res := r_res rt |}.
+      split; [reflexivity|]. cbn [r_prog r_yield r_res]. split; [reflexivity|]. split; [reflexivity|]. split; [reflexivity|].
+      intros hd others. cbn [start_pc opsim rec_fresh o_kind o_val o_lp r_wait]. rewrite Ew'.
+      replace (o =? 0) with false by (symmetry; apply Z.eqb_neq; lia).
+      replace (o <? 0) with false by (symmetry; apply Z.ltb_ge; lia). cbn [orb]. repeat split; reflexivity.
+Qed.
+
+Lemma done_ok_finish t rs0 :
+  match t_cur t with
+  | None => done_ok (t_done t) rs0
+  | Some r => cur_complete r /\ exists e rs, rs0 = rev e ++ rs /\ done_ok (t_done t) rs /\ chk1 r e = true
+  end -> done_ok (t_done (finish t)) rs0.
+Proof.
+  unfold finish. destruct (t_cur t) as [r|]; [|auto]. intros (_ & e & rs & -> & H1 & H2). cbn [t_done]. unfold done_ok in *.
+  cbn [rev]. rewrite rev_app_distr, rev_involutive. apply check_results_snoc; auto.
+Qed.
+
+Lemma Einv_fresh l i t0 r q0 :
+  o_excuse r = existsb in_flight (upd l i (finish t0)) ->
+  Einv (map (look q0) (if existsb in_flight (upd l i (finish t0)) then map excuse_all (upd l i (t_fresh t0 r)) else upd l i (t_fresh t0 r))).
+Proof.
+  intros He. destruct (existsb in_flight (upd l i (finish t0))) eqn:Eo.
+  - rewrite map_map. apply Einv_all_excused. intros j tj rj Hj Hc. apply nth_error_map_inv in Hj as (tj0 & _ & ->).
+    eapply look_excuse_all_excused; eauto.
+  - apply Einv_map; [apply exc_only_look|]. apply (Einv_single _ i). intros j tj Hji Hj.
+    rewrite nth_error_upd_ne in Hj by exact Hji.
+    apply (existsb_false_nth _ _ j _ Eo). rewrite nth_error_upd_ne by exact Hji. exact Hj.
+Qed.
+
+Lemma sim_step_idle progs c rts js x rt t :
+  Forall (Forall (fun o => op_ok o = true)) progs ->
+  SIM progs c rts js -> nth_error (ths c) (Z.to_nat x) = Some Idle -> nth_error rts (Z.to_nat x) = Some rt ->
+  nth_error (j_ths js) (Z.to_nat x) = Some t ->
+  let '(c', rts', toks) := go1 c rts x in
+  exists js', SIM progs c' rts' js' /\
+    ((toks = [] /\ js' = js) \/ exists it, toks = enc_item it /\ item_tid it = x /\ js' = j_item progs js it).
+Proof.
+  intros Hwf HS Hp Hrt Ht.
+  pose proof (s_t _ _ _ _ HS _ _ _ _ Hp Hrt Ht) as (Hprog & Hyield & Hrest).
+  pose proof (s_inv _ _ _ _ HS) as HI.
+  pose proof (s_q _ _ _ _ HS) as Hjq. pose proof (s_ok _ _ _ _ HS) as Hjok.
+  unfold settled in Hrest. cbn [pc_idle andb] in Hrest.
+  destruct (r_yield rt) eqn:Hy.
+  - (* Gosched of PopWait(-1) *)
+    rewrite (go1_yield c rts x rt Hp Hrt Hy). destruct (Hyield eq_refl) as [_ Hw].
+    replace (r_wait rt =? 0) with false in Hrest by (symmetry; apply Z.eqb_neq; exact Hw).
+    destruct Hrest as (r & Hcur & Hdone & Hop).
+    eexists. split; [|right; exists (IEv x EvGosched 0 0 0 0); split; [reflexivity|split; [reflexivity|reflexivity]]].
+    rewrite (j_item_neutral progs js x t r _ _ _ _ _ Ht Hcur) by tauto.
+    rewrite (config_eta c _ _ Hp) at 1.
+    eapply (sim_frame progs c rts js (Z.to_nat x) Idle rt t (sh c) Idle (hist c) (rt_unyield rt) t (look (j_q js))); eauto.
+    + rewrite <- (config_eta c _ _ Hp). exact HI.
+    + apply exc_only_look.
+    + cbn [j_ths]. rewrite (upd_same_id _ _ _ Ht). reflexivity.
+    + apply (tsim_le _ _ _ _ t); [apply exc_only_look|]. unfold tsim, settled. cbn [pc_idle andb rt_unyield r_prog r_yield r_wait r_res].
+      replace (r_wait rt =? 0) with false by (symmetry; apply Z.eqb_neq; exact Hw).
+      split; [exact Hprog|]. split; [discriminate|]. exists r. split; [exact Hcur|]. split; [exact Hdone|]. exact Hop.
+    + eapply Einv_frame; eauto; [apply (s_e _ _ _ _ HS)|apply Econt_refl|apply exc_only_look].
+  - destruct (Z.eqb_spec (r_wait rt) 0) as [Hw|Hw].
+    + (* no call pending *)
+      destruct (r_prog rt) as [|o more] eqn:Hrp.
+      * assert (Hs : idle_start rt = None).
+        { unfold idle_start. rewrite Hw. cbn [Z.eqb negb]. unfold rt_begin. rewrite Hrp. reflexivity. }
+        rewrite (go1_idle_none c rts x rt Hp Hrt Hy Hs). exists js. split; [exact HS|left; auto].
+      * symmetry in Hprog. destruct (skipn_cons_nth _ _ _ _ Hprog) as [Hnth Hmore].
+        assert (Hok : op_ok o = true).
+        { assert (Hin : In o (nth (Z.to_nat x) progs [])) by (eapply skipn_In; rewrite Hprog; left; reflexivity).
+          destruct (nth_in_or_default (Z.to_nat x) progs []) as [Hin'|Hd]; [|rewrite Hd in Hin; destruct Hin].
+          rewrite Forall_forall in Hwf. specialize (Hwf _ Hin'). rewrite Forall_forall in Hwf. apply Hwf. exact Hin. }
+        destruct (rt_begin_spec rt o more Hrp Hok) as (opx & rt1 & Hbeg & Hrp1 & Hy1 & Hres1 & Hops).
+        assert (Hs : idle_start rt = Some (opx, rt1)).
+        { unfold idle_start. rewrite Hw. cbn [Z.eqb negb]. exact Hbeg. }
+        rewrite (go1_idle_start c rts x rt opx rt1 Hp Hrt Hy Hs).
+        eexists. split; [|right; exists (IStart x); split; [reflexivity|split; [reflexivity|reflexivity]]].
+        cbn [j_item].
+        assert (Hst : starts_ok js (Z.to_nat x) = true).
+        { unfold starts_ok. rewrite Ht. destruct (t_cur t) as [r|]; [|reflexivity]. destruct Hrest as ((C1 & _) & _). rewrite C1. reflexivity. }
+        assert (Hnc : match t_cur t with Some r => o_wait r && negb (o_lp r) && negb (o_left r =? 0) | None => false end = false).
+        { destruct (t_cur t) as [r|]; [|reflexivity]. destruct Hrest as ((_ & C2) & _). exact C2. }
+        rewrite Hst, (j_start_fresh progs js _ t o Ht Hnc Hnth). cbv zeta.
+        set (others := existsb in_flight (upd (j_ths js) (Z.to_nat x) (finish t))).
+        set (f := if others then (fun t => look (j_q js) (excuse_all t)) else look (j_q js)).
+        assert (Hf : exc_only f).
+        { unfold f. destruct others; [apply exc_only_comp; [apply exc_only_excuse_all|apply exc_only_look]|apply exc_only_look]. }
+        assert (Inv {| sh := sh c; ths := upd (ths c) (Z.to_nat x) (start_pc opx); hist := hist c |}) as HI'.
+        { pose proof (step_inv c (Z.to_nat x, opx) HI) as H. rewrite (step_at c _ opx Idle Hp) in H. destruct opx; exact H. }
+        eapply (sim_frame progs c rts js (Z.to_nat x) Idle rt t (sh c) (start_pc opx) (hist c) rt1
+                  (t_fresh t (rec_fresh o others)) f); eauto.
+        -- cbn [j_ths]. unfold f. destruct others; [rewrite map_map|]; reflexivity.
+        -- apply (tsim_le _ _ _ _ (t_fresh t (rec_fresh o others))); [apply Hf|].
+           unfold tsim, settled. replace (pc_idle (start_pc opx)) with false by (destruct opx; reflexivity). cbn [andb t_fresh t_next t_cur t_done].
+           split; [congruence|]. split; [rewrite Hy1; discriminate|].
+           eexists. split; [reflexivity|]. split; [|apply Hops]. rewrite Hres1. apply done_ok_finish. exact Hrest.
+        -- unfold f. fold others. pose proof (Einv_fresh (j_ths js) (Z.to_nat x) t (rec_fresh o others) (j_q js) eq_refl) as HE.
+           fold others in HE. destruct others; [rewrite map_map in HE|]; exact HE.
+    + (* next attempt of a pending PopWait *)
+      replace (r_wait rt =? 0) with false in Hrest by (symmetry; apply Z.eqb_neq; exact Hw).
+      destruct Hrest as (r & Hcur & Hdone & Hop). cbn [opsim] in Hop. destruct Hop as (K1 & K2 & K3 & K4).
+      assert (Hs : idle_start rt = Some (OpPop, rt)).
+      { unfold idle_start. replace (r_wait rt =? 0) with false by (symmetry; apply Z.eqb_neq; exact Hw). reflexivity. }
+      rewrite (go1_idle_start c rts x rt OpPop rt Hp Hrt Hy Hs).
+      eexists. split; [|right; exists (IStart x); split; [reflexivity|split; [reflexivity|reflexivity]]].
+      cbn [j_item start_pc].
+      assert (Hst : starts_ok js (Z.to_nat x) = true).
+      { unfold starts_ok. rewrite Ht, Hcur, K1. reflexivity. }
+      assert (Hc : o_wait r && negb (o_lp r) && negb (o_left r =? 0) = true).
+      { rewrite K2, K3. cbn [negb andb]. destruct (Z.eqb_spec (o_left r) 0); [lia|reflexivity]. }
+      rewrite Hst, (j_start_again progs js _ t r Ht Hcur Hc).
+      assert (Inv {| sh := sh c; ths := upd (ths c) (Z.to_nat x) PopLoadHead; hist := hist c |}) as HI'.
+      { pose proof (step_inv c (Z.to_nat x, OpPop) HI) as H. rewrite (step_at c _ OpPop Idle Hp) in H. exact H. }
+      eapply (sim_frame progs c rts js (Z.to_nat x) Idle rt t (sh c) PopLoadHead (hist c) rt
+                (with_cur t (Some (rec_again r))) (look (j_q js))); eauto.
+      * apply exc_only_look.
+      * apply (tsim_le _ _ _ _ (with_cur t (Some (rec_again r)))); [apply exc_only_look|].
+        unfold tsim, settled. cbn [pc_idle andb with_cur t_next t_cur t_done].
+        split; [exact Hprog|]. split; [rewrite Hy; discriminate|].
+        exists (rec_again r). split; [reflexivity|]. split; [exact Hdone|]. cbn [opsim]. unfold wait_run.
+        cbn [rec_again o_kind o_lp o_wait o_left].
+        split; [reflexivity|]. split; [reflexivity|]. split.
+        -- destruct (Z.eqb_spec (r_wait rt) 0); [contradiction|reflexivity].
+        -- intros _. destruct K4 as [[A B]|[A B]]; rewrite B.
+           ++ rewrite A. cbn. split; lia.
+           ++ destruct (Z.ltb_spec (r_left rt + 1) 0); split; lia.
+      * eapply Einv_frame; eauto; [apply (s_e _ _ _ _ HS)|apply (Econt_with_cur t r); auto|apply exc_only_look].
+Qed.
+
+(* ---- one schedule entry ---- *)
+Theorem sim_step progs c rts js x :
+  Forall (Forall (fun o => op_ok o = true)) progs -> SIM progs c rts js ->
+  let '(c', rts', toks) := go1 c rts x in
+  exists js', SIM progs c' rts' js' /\
+    ((toks = [] /\ js' = js) \/ exists it, toks = enc_item it /\ item_tid it = x /\ js' = j_item progs js it).
+Proof.
+  intros Hwf HS.
+  destruct (nth_error (ths c) (Z.to_nat x)) as [p|] eqn:Hp.
+  - pose proof (nth_error_some_lt _ _ _ Hp) as Hlt.
+    destruct (nth_error rts (Z.to_nat x)) as [rt|] eqn:Hrt;
+      [|apply nth_error_None in Hrt; rewrite (s_len1 _ _ _ _ HS) in Hrt; lia].
+    destruct (nth_error (j_ths js) (Z.to_nat x)) as [t|] eqn:Ht;
+      [|apply nth_error_None in Ht; rewrite (s_len2 _ _ _ _ HS) in Ht; lia].
+    destruct (pc_idle p) eqn:Hidle.
+    + assert (p = Idle) by (destruct p; try discriminate; reflexivity). subst p.
+      apply (sim_step_idle progs c rts js x rt t Hwf HS Hp Hrt Ht).
+    + pose proof (sim_step_busy progs c rts js x p rt t HS Hp Hrt Ht Hidle) as H.
+      destruct (go1 c rts x) as [[c' rts'] toks]. destruct H as [H1 H2].
+      eexists. split; [exact H1|]. right. eexists. split; [exact H2|]. split; [apply item_of_tid|reflexivity].
+  - rewrite (go1_none c rts x Hp). exists js. split; [exact HS|left; auto].
 Qed.
